@@ -43,8 +43,8 @@ func (dsPtr *Set) FindBuffered(x int, buf []int) int {
 		return x
 	}
 	currentPlace := x
-	seenNumbers := buf[:1]
-	seenNumbers[0] = x
+	//buf may have any capacity (it may even be nil): append allocates if the path doesn't fit.
+	seenNumbers := append(buf[:0], x)
 	for {
 		if currentPlace = ds[currentPlace]; currentPlace < 0 {
 			tmp := seenNumbers[len(seenNumbers)-1]
